@@ -1117,7 +1117,7 @@ def replay_witnesses(ctx, prop):
 def run_family_app(ctx, prop):
     """application scenarios: implementation run, replay through the Lean product machine, property oracle"""
     rng = ctx.rng
-    n_app = 300 if ctx.tier == 'quick' else 6000
+    n_app = 500 if ctx.tier == 'quick' else 12000
     try:
         replay_witnesses(ctx, prop)
     except Exception as e:   # noqa
